@@ -87,5 +87,15 @@ func sqlRoundTrip(format string, g geom.T) string {
 			wrong = "other-error"
 		}
 	}
+	// a NULL scanned into a wrapper that holds a geometry (one destination reused for every row of a
+	// nullable column) leaves it holding none: its Value is then NULL, not the previous row's bytes
+	// (the ewkb wrappers: the wkb ones take byte slices only)
+	if format == "ewkb" && dec != "(err other)" && wrong == "unexpectedType" {
+		if err := same.Scan(nil); err != nil {
+			wrong = "null-not-accepted"
+		} else if v2, err := same.Value(); err != nil || v2 != nil {
+			wrong = "null-did-not-reset"
+		}
+	}
 	return fmt.Sprintf("(ok %s %s %s)", hexOrDash(bs), dec, wrong)
 }
